@@ -306,7 +306,12 @@ class LogRecorder:
             self.need_val.add(int(x))
         for x in np.unique(b):
             self.need_val.add(int(x))
-        self.slots[s].merge(self.slots[t])
+        try:
+            self.slots[s].merge(self.slots[t])
+        except TypeError as exc:
+            if impl.STRICT_PERSIST:
+                self.emit({"ev": "merge_refused", "s": s + 1, "t": t + 1, "exc": repr(exc)[:200]})
+            return
         self.emit({"ev": "merge", "s": s + 1, "t": t + 1})
 
     def saveload(self, s, t, how=0):
